@@ -4,6 +4,7 @@ C14 — Chunk-size, repeat and time-limit options are honoured.
 and the time limit of around/balanced: see DESIGN.md §4 C14 for what is partial.)
 -/
 import LithiumProofs.MinimizeLog
+import LithiumProofs.PairsTime
 import LithiumModel.Args
 
 namespace Strat
@@ -151,6 +152,45 @@ example :
                           reducible := List.replicate 9 true, after := [] }
     ((minimize { max := 4 } (fun _ _ => false) (fun _ => 0) t).atts.reverse.map (fun a => (a.lo, a.hi, a.size))).take 4
       = [(5, 9, 4), (1, 5, 4), (7, 9, 2), (6, 8, 2)] := by
+  decide
+
+/-- the time limit in minimize-around and minimize-balanced (without the experimental move): every
+proposal — hence every test — is made at a moment when the clock has not passed `start + limit`;
+with a clock that never goes back, once the limit has passed no further test is started.  For
+EVERY test, option setting and testcase. -/
+theorem C14_deadline_pairs (cfg : Cfg) (o : Oracle) (clk : Clock) (t : Testcase)
+    (limit : Nat) (hl : cfg.stopAfter = some limit) :
+    ((∀ a ∈ (around cfg o clk t).atts, clk a.tIdx ≤ clk 0 + limit) ∧
+     (∀ a ∈ (balanced cfg o clk t).atts, clk a.tIdx ≤ clk 0 + limit)) ∧
+    ((∀ i j, i ≤ j → clk i ≤ clk j) → ∀ k, clk k > clk 0 + limit →
+      (∀ a ∈ (around cfg o clk t).atts, a.tIdx < k) ∧ (∀ a ∈ (balanced cfg o clk t).atts, a.tIdx < k)) := by
+  have hstop : stopAt cfg clk = some (clk 0 + limit) := by simp [stopAt, hl]
+  have conv : ∀ it : It, OnTime (stopAt cfg clk) clk it → ∀ a ∈ it.atts, clk a.tIdx ≤ clk 0 + limit := by
+    intro it h a ha
+    have := h a ha
+    rw [hstop] at this
+    simp only [deadlineAt, decide_eq_false_iff_not, Nat.not_lt] at this
+    exact this
+  have ka := conv _ (around_onTime cfg o clk t)
+  have kb := conv _ (balanced_onTime cfg o clk t)
+  refine ⟨⟨ka, kb⟩, ?_⟩
+  intro hmono k hk
+  have late : ∀ it : It, (∀ a ∈ it.atts, clk a.tIdx ≤ clk 0 + limit) → ∀ a ∈ it.atts, a.tIdx < k := by
+    intro it h a ha
+    have h1 := h a ha
+    rcases Nat.lt_or_ge a.tIdx k with hlt | hge
+    · exact hlt
+    · have := hmono k a.tIdx hge
+      omega
+  exact ⟨late _ ka, late _ kb⟩
+
+/-- non-vacuity: the clock jumps past the limit after the second test of minimize-around: exactly
+two tests are run -/
+example :
+    let t : Testcase := { before := [], parts := (List.range 6).map (fun i => [UInt8.ofNat i]),
+                          reducible := List.replicate 6 true, after := [] }
+    (around { stopAfter := some 10 } (fun _ _ => false) (fun k => if k < 2 then 0 else 100) t).nTests = 2 ∧
+    (around { stopAfter := some 10 } (fun _ _ => false) (fun k => if k < 2 then 0 else 100) t).deadlineStop = true := by
   decide
 
 end Strat
